@@ -37,12 +37,12 @@ func (f *Frame) call(bi *BInfo, c *ssa.CallCommon, site ssa.Value, resT types.Ty
 		return f.staticCall(bi, fv, nil, args, argVals, resT)
 	case *ssa.MakeClosure:
 		if cl, ok := f.closures[fv]; ok {
-			return f.inlineCall(bi, cl.fn, cl, args, argVals)
+			return f.staticCall(bi, cl.fn, cl, args, argVals, resT)
 		}
 	}
 	// dynamic call of a function value
 	if cl := f.findClosure(c.Value); cl != nil {
-		return f.inlineCall(bi, cl.fn, cl, args, argVals)
+		return f.staticCall(bi, cl.fn, cl, args, argVals, resT)
 	}
 	if fn := f.findStaticFn(c.Value); fn != nil {
 		return f.staticCall(bi, fn, nil, args, argVals, resT)
@@ -155,7 +155,7 @@ func (f *Frame) staticCall(bi *BInfo, fn *ssa.Function, cl *closureVal, args []T
 		fc = g.cs.Funcs[contractKeyOf(fn.Origin())]
 	}
 	if fc != nil && !fc.Inline {
-		return f.applyContract(bi, fn, fc, args, argVals)
+		return f.applyContract(bi, fn, fc, args, argVals, cl)
 	}
 	if fn.Parent() != nil && fn.Blocks != nil {
 		// anonymous function called directly
@@ -249,8 +249,13 @@ func (f *Frame) externFacts(bi *BInfo, fn *ssa.Function, args []T, res []T) {
 
 // ---------------------------------------------------------------- contracts at call sites
 
-func (f *Frame) applyContract(bi *BInfo, fn *ssa.Function, fc *FuncContract, args []T, argVals []ssa.Value) []T {
+func (f *Frame) applyContract(bi *BInfo, fn *ssa.Function, fc *FuncContract, args []T, argVals []ssa.Value, cl *closureVal) []T {
 	g := f.g
+	if len(fn.FreeVars) > 0 && cl == nil {
+		g.note("closure %s called by contract without known bindings: heap havocked", fnDisplay(fn))
+		f.havocAll(bi)
+		return f.freshResults(fn.Signature)
+	}
 	// arguments that are addresses (locations): contracts see them as opaque references
 	for i := range args {
 		if args[i].S == "" {
@@ -261,9 +266,36 @@ func (f *Frame) applyContract(bi *BInfo, fn *ssa.Function, fc *FuncContract, arg
 	for i, p := range fn.Params {
 		names[i] = p.Name()
 	}
+	args = args[:min(len(args), len(names))]
+	// free variables of a closure are visible by name: their current content
+	if cl != nil {
+		for i, fv := range fn.FreeVars {
+			if i >= len(cl.bindings) {
+				break
+			}
+			b := cl.bindings[i]
+			var v T
+			if l := cl.frame.addrLoc(b); l != nil {
+				v = g.load(bi.out, l)
+			} else if pt := derefType(b.Type()); pt != nil && isStruct(pt) {
+				v = g.loadStruct(bi.out, cl.frame.val(b).S, pt)
+			} else {
+				continue
+			}
+			names = append(names, fv.Name())
+			args = append(args, v)
+			if _, isLoc := cl.frame.locs[b]; !isLoc {
+				names = append(names, "&"+fv.Name())
+				args = append(args, cl.frame.val(b))
+			}
+		}
+	}
 	var pkg *types.Package
-	if fn.Pkg != nil {
-		pkg = fn.Pkg.Pkg
+	for p := fn; p != nil; p = p.Parent() {
+		if p.Pkg != nil {
+			pkg = p.Pkg.Pkg
+			break
+		}
 	}
 	return f.applyContractNamed(bi, fc, fn.Signature, names, args, pkg, fnDisplay(fn))
 }
